@@ -293,7 +293,7 @@ def replay_behaviours(ctx, prop, quick):
         op = r.get("op", {})
         key = "qs replay differs: op=%s fields=%s" % (op.get("op"), ",".join(r.get("differs", [r.get("problem", "?")])))
         ctx.violation(key, "the real queue server does not follow the TLC behaviour at step %s" % r.get("step"),
-                      {"behaviour": [h["last"] for h in hists[idx]], "disagreement": r})
+                      {"behaviour": [h["last"] for h in hists[idx]], "disagreement": r, "hist": hists[idx]})
     ctx.cover(traces_validated_against_impl=agreed, transitions=steps)
     ctx.set_cover(replayed_behaviours=agreed, replayed_steps=steps, replay_behaviour_length=histlen)
     h = hists[0]
